@@ -267,7 +267,7 @@ def run(ctx: Ctx):
         cases = []
         for i in range(n_cfg):
             # quick: always a NON-default configuration (defaults hide a range that is silently ignored)
-            k = 1 + (ctx.seed % 2) if ctx.quick else i
+            k = 1 if ctx.quick else i  # CFGS[1]: every range shifted away from its default and from the neutral values
             cfg = dict(CFGS[k])
             if task == "locomotion":
                 cfg.update(LOCO_EXTRA[k])
